@@ -417,6 +417,11 @@ def _legal_input(fn):
         try:
             return fn(*a, **k)
         except Exception as e:  # noqa
+            tb = e.__traceback__
+            while tb.tb_next is not None:
+                tb = tb.tb_next
+            if "/py7zr/" not in tb.tb_frame.f_code.co_filename:
+                raise   # a slip of the replay itself, not of the library
             return True, "the real function raised %r on a legal input %r %r" % (e, a, k)
 
     return wrapper
